@@ -369,6 +369,11 @@ func (f *formatStore) Query(expression string, options ...spi.QueryOption) (spi.
 		return nil, errInvalidQueryExpressionFormat
 	}
 
+	options, err := f.formatQueryOptions(options)
+	if err != nil {
+		return nil, fmt.Errorf("failed to format query options: %w", err)
+	}
+
 	expressionSplit := strings.Split(expression, ":")
 	switch len(expressionSplit) {
 	case expressionTagNameOnlyLength:
@@ -400,6 +405,35 @@ func (f *formatStore) Query(expression string, options ...spi.QueryOption) (spi.
 	default:
 		return nil, errInvalidQueryExpressionFormat
 	}
+}
+
+// formatQueryOptions formats the tag name of a sort option: the underlying store only knows formatted tag names and
+// must not be handed the unformatted one.
+func (f *formatStore) formatQueryOptions(options []spi.QueryOption) ([]spi.QueryOption, error) {
+	var queryOptions spi.QueryOptions
+
+	for _, option := range options {
+		if option != nil {
+			option(&queryOptions)
+		}
+	}
+
+	if queryOptions.SortOptions == nil || queryOptions.SortOptions.TagName == "" {
+		return options, nil
+	}
+
+	_, _, formattedTags, err := f.formatter.Format("", nil, spi.Tag{Name: queryOptions.SortOptions.TagName})
+	if err != nil {
+		return nil, fmt.Errorf(failFormat, "tag name", queryOptions.SortOptions.TagName, err)
+	}
+
+	formattedSortOptions := &spi.SortOptions{
+		Order:   queryOptions.SortOptions.Order,
+		TagName: formattedTags[0].Name,
+	}
+
+	// A later option overrides an earlier one.
+	return append(append([]spi.QueryOption{}, options...), spi.WithSortOrder(formattedSortOptions)), nil
 }
 
 func (f *formatStore) Delete(key string) error {
